@@ -208,3 +208,19 @@ Proof.
   - intros ((H1 & H2) & H3). repeat split; auto. intros t Ht. apply Z.leb_le, H3, in_seq. lia.
   - intros (H1 & H2 & H3). repeat split; auto. intros t Ht. apply Z.leb_le, H3. apply in_seq in Ht. lia.
 Qed.
+
+(* the table-driven evaluation used by the comparator is the closed form of the specification *)
+Lemma wsum3_maps (f : nat -> Z) (g : nat -> list Z) (h : nat -> list (list Z)) (S : list nat) s k :
+  wsum3 (map f S) (map g S) (map h S) s k =
+  zsum (map (fun t => f t * (if memZ k (g t) then cell (h t) s k else 0)) S).
+Proof. induction S as [|t S IH]; [reflexivity|]. cbn [map wsum3]. rewrite IH. reflexivity. Qed.
+
+Lemma wnum_f_eq d unw c s k : wnum_f (tables_of d unw c) s k = wnum d unw c s k.
+Proof. unfold wnum_f, tables_of, wnum, masked. cbn [tb_w tb_ch tb_tm]. apply wsum3_maps. Qed.
+
+Lemma mean_rows_f_eq d c tb :
+  mean_rows_f d c (tables_of d false c) (chans_of d false tb) = mean_rows d c tb.
+Proof.
+  unfold mean_rows_f, mean_rows. apply map_ext. intros s. apply map_ext. intros k.
+  rewrite wnum_f_eq. unfold tables_of, wden. cbn [tb_w]. reflexivity.
+Qed.
